@@ -52,8 +52,8 @@ def mc_configs(pid, tier):
                                            FailModes={False}, MaxMsgs=3, MaxSteps=4 if not q else 3, MaxCtl=3 if not q else 2)),
         ]
         if not q:
-            cfgs.append(("mc_part_3hosts", base_consts(N=3, GMax=2, CtlOps=set(PART_OPS), HostCtlOps={"partition_oneway"},
-                                                       FailModes={True, False}, MaxMsgs=3, MaxSteps=3, MaxCtl=2)))
+            cfgs.append(("mc_part_3hosts", base_consts(N=3, GMax=1, CtlOps=set(PART_OPS), HostCtlOps={"partition_oneway"},
+                                                       FailModes={True}, MaxMsgs=2, MaxSteps=3, MaxCtl=2)))
         return cfgs
     if pid == "C08":
         cfgs = [
@@ -61,8 +61,8 @@ def mc_configs(pid, tier):
                                     MaxMsgs=3, MaxSteps=4 if not q else 3, MaxCtl=3)),
         ]
         if not q:
-            cfgs.append(("mc_hold_3hosts", base_consts(N=3, GMax=2, CtlOps=set(HOLD_OPS), HostCtlOps={"release"},
-                                                       AllowManual=True, MaxMsgs=3, MaxSteps=3, MaxCtl=3)))
+            cfgs.append(("mc_hold_3hosts", base_consts(N=3, GMax=1, CtlOps=set(HOLD_OPS), HostCtlOps={"release"},
+                                                       AllowManual=True, MaxMsgs=2, MaxSteps=3, MaxCtl=2)))
             cfgs.append(("mc_hold_4msgs", base_consts(GMax=1, CtlOps=set(HOLD_OPS), HostCtlOps=set(), AllowManual=True,
                                                       MaxMsgs=4, MaxSteps=4, MaxCtl=4)))
         return cfgs
@@ -74,8 +74,8 @@ def mc_configs(pid, tier):
                                       RandomOrder=False, MaxMsgs=3, MaxSteps=3, MaxLatCtl=1)),
         ]
         if not q:
-            cfgs.append(("mc_lat_t1_3hosts", base_consts(N=3, Tick=1, GMin=0, GMax=2, LatChoices={0, 3}, MaxChoices={1},
-                                                         Offsets={0}, RandomOrder=True, MaxMsgs=3, MaxSteps=4, MaxLatCtl=1)))
+            cfgs.append(("mc_lat_t1_3hosts", base_consts(N=3, Tick=1, GMin=0, GMax=2, LatChoices={3}, MaxChoices={1},
+                                                         Offsets={0}, RandomOrder=True, MaxMsgs=2, MaxSteps=3, MaxLatCtl=1)))
         return cfgs
     raise ValueError(pid)
 
